@@ -228,6 +228,17 @@ _NEG = {ast.NotIn: ast.In, ast.IsNot: ast.Is, ast.NotEq: ast.Eq}
 _POS = {v: k for k, v in _NEG.items()}
 
 
+def _swap_symmetric(text: str):
+    """`a == b` -> `b == a` (==, !=, is, is not with one operator); None for anything else."""
+    try:
+        e = ast.parse(text, mode="eval").body
+    except SyntaxError:
+        return None
+    if isinstance(e, ast.Compare) and len(e.ops) == 1 and isinstance(e.ops[0], (ast.Eq, ast.NotEq, ast.Is, ast.IsNot)):
+        return ast.unparse(ast.Compare(left=e.comparators[0], ops=e.ops, comparators=[e.left]))
+    return None
+
+
 def _dual_compare(text: str):
     """(positive text, was_negative) for a single comparison with in / is / == or their negations; else None."""
     try:
@@ -520,6 +531,21 @@ class Interp:
         if m:
             text = f"{m.group(1)}({m.group(2)})"
         f = self.hooks.atom(text, node, self)
+        if f is None:
+            # `a == b` and `b == a` (also !=, is, is not) are one atom
+            sw = _swap_symmetric(text)
+            if sw is not None:
+                f = self.hooks.atom(sw, node, self)
+                if f is None:
+                    d2 = _dual_compare(sw)
+                    if d2 is not None:
+                        pos2, neg2 = d2
+                        other2 = pos2 if neg2 else _negative_of(pos2)
+                        g2 = self.hooks.atom(other2, node, self) if other2 is not None else None
+                        if g2 is not None:
+                            f = ("not", g2) if not isinstance(g2, bool) else (not g2)
+                if f is None and sw < text:
+                    text = sw   # an unknown symmetric comparison is named by the smaller of its two spellings
         if f is None:
             # `a not in b` / `a is not b` / `a != b` and their positive forms are one atom: an atomizer that knows
             # either spelling decides both; an unknown comparison is named by its positive form
